@@ -59,6 +59,7 @@ type Frame struct {
 	running  bool // running defers
 	results  []Value
 	returned bool
+	skipPhi  bool
 }
 
 type Violation struct {
@@ -115,6 +116,8 @@ type Path struct {
 	inExit bool
 	panicOK bool
 	mapOrderSym bool
+	spec    bool
+	nIfConv int
 }
 
 func (p *Path) unsupported(format string, args ...interface{}) pathAbort {
@@ -152,9 +155,14 @@ func (p *Path) addPC(c *Term) {
 	p.pc = append(p.pc, c)
 }
 
+type specAbort struct{}
+
 func (p *Path) branch(c *Term) bool {
 	if c.IsConst() {
 		return c.C == 1
+	}
+	if p.spec {
+		panic(specAbort{})
 	}
 	p.nsym++
 	if p.di < len(p.dec) {
@@ -199,6 +207,9 @@ func (p *Path) branch(c *Term) bool {
 func (p *Path) concretize(t *Term, what string) uint64 {
 	if t.IsConst() {
 		return t.C
+	}
+	if p.spec {
+		panic(specAbort{})
 	}
 	p.nsym++
 	excluded := 0
@@ -337,6 +348,13 @@ func (p *Path) fault(format string, args ...interface{}) {
 }
 
 func (p *Path) goPanicRuntime(msg string) {
+	if p.cur != nil && p.cur.fn != nil && !p.spec {
+		st := ""
+		for f, n := p.cur, 0; f != nil && n < 6; f, n = f.caller, n+1 {
+			st += " <- " + f.fn.Name()
+		}
+		msg += " [at" + st + "]"
+	}
 	panic(&GoPanic{V: &Iface{T: p.eng.errType, V: p.concStr("runtime error: " + msg)}, Msg: "runtime error: " + msg, Runtime: true})
 }
 
@@ -631,6 +649,16 @@ func (p *Path) execBlocks(fr *Frame) Value {
 		// phis first (parallel assignment)
 		nphi := 0
 		var phiVals []Value
+		if fr.skipPhi {
+			fr.skipPhi = false
+			for _, ins := range b.Instrs {
+				if _, ok := ins.(*ssa.Phi); !ok {
+					break
+				}
+				nphi++
+			}
+			goto body
+		}
 		for _, ins := range b.Instrs {
 			phi, ok := ins.(*ssa.Phi)
 			if !ok {
@@ -652,6 +680,7 @@ func (p *Path) execBlocks(fr *Frame) Value {
 		for i := 0; i < nphi; i++ {
 			fr.locals[b.Instrs[i].(*ssa.Phi)] = phiVals[i]
 		}
+	body:
 		var next *ssa.BasicBlock
 		for _, ins := range b.Instrs[nphi:] {
 			p.steps++
@@ -661,6 +690,13 @@ func (p *Path) execBlocks(fr *Frame) Value {
 			switch x := ins.(type) {
 			case *ssa.If:
 				c := p.operand(fr, x.Cond).(*Term)
+				if !c.IsConst() && !p.eng.noIfConv {
+					if j := p.tryIfConvert(fr, b, c); j != nil {
+						next = j
+						fr.skipPhi = true
+						break
+					}
+				}
 				if p.branch(c) {
 					next = b.Succs[0]
 				} else {
@@ -691,7 +727,11 @@ func (p *Path) execBlocks(fr *Frame) Value {
 					panic(fr.panic)
 				}
 			default:
-				p.execInstr(fr, ins)
+				if p.inInit > 0 && fr.fn.Name() == "init" && fr.fn.Synthetic != "" {
+					p.execInitInstr(fr, ins)
+				} else {
+					p.execInstr(fr, ins)
+				}
 			}
 		}
 		if next == nil {
@@ -1535,3 +1575,218 @@ func (p *Path) convert(v Value, from, to types.Type) Value {
 }
 
 func float64bits(f float64) uint64 { return math.Float64bits(f) }
+
+
+// ---- if-conversion of side-effect-free diamonds ----
+
+// forwardTarget returns the join block if blk (a successor of b) is a pure forwarding side
+// block: single predecessor, ends in Jump.
+func sideJoin(b, blk *ssa.BasicBlock) *ssa.BasicBlock {
+	if len(blk.Preds) != 1 || blk.Preds[0] != b {
+		return nil
+	}
+	if len(blk.Instrs) == 0 || len(blk.Instrs) > 24 {
+		return nil
+	}
+	if _, ok := blk.Instrs[len(blk.Instrs)-1].(*ssa.Jump); !ok {
+		return nil
+	}
+	return blk.Succs[0]
+}
+
+// speculate executes the pure instructions of a side block; returns false if anything
+// could trap, fork or have a side effect.
+func (p *Path) speculate(fr *Frame, blk *ssa.BasicBlock) (ok bool) {
+	defer func() {
+		p.spec = false
+		if r := recover(); r != nil {
+			switch r.(type) {
+			case specAbort, *GoPanic:
+				ok = false
+			case pathAbort:
+				ok = false
+			default:
+				panic(r)
+			}
+		}
+	}()
+	p.spec = true
+	for _, ins := range blk.Instrs[:len(blk.Instrs)-1] {
+		switch x := ins.(type) {
+		case *ssa.BinOp, *ssa.Convert, *ssa.ChangeType, *ssa.Extract, *ssa.Field, *ssa.FieldAddr,
+			*ssa.IndexAddr, *ssa.Index, *ssa.Slice, *ssa.MakeInterface, *ssa.ChangeInterface, *ssa.DebugRef:
+			p.execInstr(fr, ins)
+		case *ssa.UnOp:
+			p.execInstr(fr, ins)
+		case *ssa.Lookup:
+			if _, isMap := x.X.Type().Underlying().(*types.Map); isMap {
+				return false
+			}
+			p.execInstr(fr, ins)
+		case *ssa.Call:
+			bi, isB := x.Call.Value.(*ssa.Builtin)
+			if !isB || (bi.Name() != "len" && bi.Name() != "cap" && bi.Name() != "min" && bi.Name() != "max") {
+				return false
+			}
+			p.execInstr(fr, ins)
+		default:
+			return false
+		}
+	}
+	return true
+}
+
+func (p *Path) iteValue(c *Term, a, b Value) (Value, bool) {
+	switch x := a.(type) {
+	case *Term:
+		y, ok := b.(*Term)
+		if !ok || x.S != y.S {
+			return nil, false
+		}
+		return p.tt.Ite(c, x, y), true
+	case *Str:
+		y, ok := b.(*Str)
+		if !ok || len(x.B) != len(y.B) {
+			return nil, false
+		}
+		out := make([]*Term, len(x.B))
+		for i := range out {
+			out[i] = p.tt.Ite(c, x.B[i], y.B[i])
+		}
+		return &Str{B: out}, true
+	case *Ptr:
+		y, ok := b.(*Ptr)
+		if ok && x.Obj == nil && y.Obj == nil {
+			return x, true
+		}
+		if ok && x == y {
+			return x, true
+		}
+	case *Iface:
+		y, ok := b.(*Iface)
+		if ok && x.T == nil && y.T == nil {
+			return x, true
+		}
+		if ok && x == y {
+			return x, true
+		}
+	}
+	if a == b {
+		return a, true
+	}
+	return nil, false
+}
+
+// tryIfConvert recognises  b: if c goto s0 else s1  where s0/s1 are pure side blocks (or
+// the join itself) and merges the join block's phis with ite instead of forking.
+func (p *Path) tryIfConvert(fr *Frame, b *ssa.BasicBlock, c *Term) *ssa.BasicBlock {
+	s0, s1 := b.Succs[0], b.Succs[1]
+	var j *ssa.BasicBlock
+	var side0, side1 *ssa.BasicBlock
+	j0, j1 := sideJoin(b, s0), sideJoin(b, s1)
+	switch {
+	case j0 != nil && j0 == s1:
+		j, side0 = s1, s0
+	case j1 != nil && j1 == s0:
+		j, side1 = s0, s1
+	case j0 != nil && j0 == j1:
+		j, side0, side1 = j0, s0, s1
+	default:
+		return nil
+	}
+	if j == b || j == s0 && j == s1 {
+		return nil
+	}
+	// j must start with phis covering the difference (or have none, if sides are empty)
+	if side0 != nil && !p.speculate(fr, side0) {
+		return nil
+	}
+	if side1 != nil && !p.speculate(fr, side1) {
+		return nil
+	}
+	pred0, pred1 := b, b
+	if side0 != nil {
+		pred0 = side0
+	}
+	if side1 != nil {
+		pred1 = side1
+	}
+	idx0, idx1 := -1, -1
+	for i, pr := range j.Preds {
+		if pr == pred0 && idx0 < 0 {
+			idx0 = i
+		}
+		if pr == pred1 {
+			idx1 = i
+		}
+	}
+	if pred0 == pred1 {
+		// both edges come from b itself (degenerate); cannot distinguish
+		return nil
+	}
+	if idx0 < 0 || idx1 < 0 {
+		return nil
+	}
+	var phis []*ssa.Phi
+	var vals []Value
+	for _, ins := range j.Instrs {
+		phi, ok := ins.(*ssa.Phi)
+		if !ok {
+			break
+		}
+		v0 := p.operand(fr, phi.Edges[idx0])
+		v1 := p.operand(fr, phi.Edges[idx1])
+		m, ok := p.iteValue(c, v0, v1)
+		if !ok {
+			return nil
+		}
+		phis = append(phis, phi)
+		vals = append(vals, m)
+	}
+	for i, phi := range phis {
+		fr.locals[phi] = vals[i]
+	}
+	p.nIfConv++
+	return j
+}
+
+
+// execInitInstr executes one instruction of a package initializer leniently: calls to other
+// packages' initializers are skipped (their globals are initialised lazily on first use)
+// and an instruction the encoder cannot execute leaves the zero value behind.
+func (p *Path) execInitInstr(fr *Frame, ins ssa.Instruction) {
+	if c, ok := ins.(*ssa.Call); ok {
+		if f, ok := c.Call.Value.(*ssa.Function); ok && f.Name() == "init" && f.Pkg != fr.fn.Pkg && f.Signature.Recv() == nil {
+			fr.locals[c] = nil
+			return
+		}
+	}
+	saved := p.cur
+	depth := p.depth
+	defer func() {
+		if r := recover(); r != nil {
+			skip := false
+			switch x := r.(type) {
+			case pathAbort:
+				skip = x.kind == abUnsupported
+				if skip {
+					fmt.Fprintf(p.eng.logw, "note: init of %s: skipped %s: %s\n", fr.fn.Pkg.Pkg.Path(), ins, x.msg)
+				}
+			case *GoPanic:
+				skip = true
+			}
+			if !skip {
+				panic(r)
+			}
+			p.cur = saved
+			p.depth = depth
+			if v, ok := ins.(ssa.Value); ok {
+				func() {
+					defer func() { recover() }()
+					fr.locals[v] = p.zero(v.Type())
+				}()
+			}
+		}
+	}()
+	p.execInstr(fr, ins)
+}
